@@ -180,6 +180,27 @@ pub fn run_c13(tier: &str) -> i32 {
         });
     });
     crate::eproj::c13_dependency_pairs(&rep);
+    // the last chunk of the output is larger than a writer buffer (a long last line, a long directive output)
+    {
+        let b = Bench::new(&help);
+        let lens: Vec<usize> = if thorough { vec![4096, 8190, 8191, 8192, 8193, 16384, 20000, 70000] } else { vec![8191, 8192, 8193, 20000] };
+        for len in lens {
+            let long = "y".repeat(len);
+            for crlf in [false, true] {
+                for final_nl in [true, false] {
+                    for lines in [vec![long.as_str()], vec!["x", long.as_str()], vec!["x", "-TXTPP#write w", long.as_str()]] {
+                        let src = build_source(&lines, crlf, final_nl);
+                        c13_pair(&rep, &b, &src);
+                        rep.add("long_last_line_pairs", 1);
+                    }
+                    let w = format!("-TXTPP#write {long}");
+                    let src = build_source(&["x", w.as_str()], crlf, final_nl);
+                    c13_pair(&rep, &b, &src);
+                    rep.add("long_last_line_pairs", 1);
+                }
+            }
+        }
+    }
     if rep.get("model_pairs_differing") == 0 || rep.get("model_pairs_equal") == 0 || rep.get("pairs_ending_in_text") == 0 {
         rep.machinery("vacuous: the enumeration did not produce both kinds of pairs".into());
     }
@@ -551,6 +572,42 @@ pub fn run_c16(tier: &str) -> i32 {
             rep.set("set_model_steps", json!(shapes.into_iter().collect::<Vec<_>>()));
         });
     }
+    // (a') directive-free texts with lines longer than a reader / writer buffer
+    {
+        let b = Bench::new(&Tree::new());
+        let lens: Vec<usize> = if thorough { vec![4096, 8190, 8191, 8192, 8193, 16384, 20000, 70000] } else { vec![8191, 8192, 8193, 70000] };
+        for len in lens {
+            let long = "y".repeat(len);
+            let long2 = format!("{} TXTPP {}", "z".repeat(len / 2), "z".repeat(len / 2));
+            for text in [vec![long.as_str()], vec!["x", long.as_str()], vec![long.as_str(), "x"], vec!["x", long.as_str(), "x"], vec![long.as_str(), long2.as_str()], vec!["", long2.as_str(), ""]] {
+                for crlf in [false, true] {
+                    for final_nl in [true, false] {
+                        if !final_nl && text.last() == Some(&"") {
+                            continue;
+                        }
+                        let src = build_source(&text, crlf, final_nl);
+                        let le = first_le(&src);
+                        for tn in [true, false] {
+                            for mode in [Mode::Build, Mode::InMemoryBuild] {
+                                let r = b.run(&src, mode.clone(), true, tn);
+                                rep.tv(1);
+                                rep.tr(1);
+                                rep.add("a_long_line_texts", 1);
+                                let want = expected_text(&text, le, tn);
+                                if r.v != V::Ok || r.out.as_deref() != Some(&want[..]) {
+                                    rep.violate(
+                                        "text-modified",
+                                        format!("directive-free source with a line of {len} bytes ({} lines, {}, final newline {final_nl}) tn={tn} {:?}: {} output of {} bytes, expected {} bytes", text.len(), if crlf { "CRLF" } else { "LF" }, mode, r.v.kind(), r.out.as_ref().map(|x| x.len()).unwrap_or(0), want.len()),
+                                        rj("C16", &src, json!({"tn": tn, "part": "a", "expected_b64": b64(&want), "mode": format!("{:?}", mode)})),
+                                    );
+                                }
+                            }
+                        }
+                    }
+                }
+            }
+        }
+    }
     // (d) directive-free text around a dependency directive: the file is processed in two passes
     {
         let lines = lines_over_tokens(2);
@@ -693,7 +750,7 @@ pub fn replay(v: &serde_json::Value) -> bool {
         }
         _ => {
             let tn = v["extra"]["tn"].as_bool().unwrap_or(true);
-            let r = b.run(&src, Mode::Build, true, tn);
+            let r = b.run(&src, crate::sched::mode_from(v["extra"]["mode"].as_str().unwrap_or("Build")), true, tn);
             println!("replay source {:?} tn={tn}: {} out={:?}", show(&src), r.v.kind(), r.out.as_ref().map(|x| show(x)));
             if v["extra"]["part"].as_str() == Some("d") {
                 let scratch = Scratch::new();
